@@ -2741,6 +2741,12 @@ stun_server_resolved_cb (GObject *src, GAsyncResult *result,
 
   stream = agent_find_stream (agent, stream_id);
 
+  /* The stream may have been removed while the name was being resolved. */
+  if (stream == NULL) {
+    agent_unlock (agent);
+    goto done;
+  }
+
   for (item = addresses; item; item = item->next) {
     GInetAddress *addr = item->data;
     guint cid;
